@@ -4,6 +4,7 @@ import (
 	"bytes"
 	"encoding/json"
 	"fmt"
+	"io"
 	"os"
 	"testing"
 
@@ -126,7 +127,11 @@ func introspectionCheck(prop string, file []byte) *Outcome {
 	if err != nil {
 		return viol(prop+"/harness-parse", "independent parser rejects the file: %v", err)
 	}
-	r := bytes.NewReader(file)
+	var r io.ReadSeeker = bytes.NewReader(file)
+	if len(file)%2 == 1 {
+		// every other file is presented as a region of a larger container: only Read and Seek see the file
+		r = newContainerSource(file)
+	}
 	meta, err := parquet.ReadMetaData(r)
 	if err != nil {
 		return viol(prop+"/readmetadata-error", "ReadMetaData: %v", err)
